@@ -143,11 +143,14 @@ Theorem single_insertion_readers m0 pre ti0 post m' k g0 i0 :
   (i_trans i0 = Tr_ADD_QUANTIZE \/ i_trans i0 = Tr_ADD_DEQUANTIZE) ->
   Forall (fun c => -1 <= c) (i_consumers i0) ->
   never_names k (i_tensor i0) pre ->
+  (forall t0, tensor_at g0 (i_tensor i0) = Some t0 -> 0 <= t_buf t0) ->
   transform_graph m0 (pre ++ ti0 :: post) = Ok m' ->
-  exists x' g', nth_opt (m_subgraphs m') k = Some g' /\ ntens g0 <= x' /\
-                readers_profile x' g' = moved_profile (i_tensor i0) (i_consumers i0) g0.
+  exists x' g' tn, nth_opt (m_subgraphs m') k = Some g' /\ ntens g0 <= x' /\
+                readers_profile x' g' = moved_profile (i_tensor i0) (i_consumers i0) g0 /\
+                tensor_at g' x' = Some tn /\
+                new_tensor_type (qtrans_eqb (i_trans i0) Tr_ADD_QUANTIZE) (i_params i0) tn.
 Proof.
-  intros Hwf Hu Hsane Hids Hg0 Hsg Hins Htr HC Hnn H.
+  intros Hwf Hu Hsane Hids Hg0 Hsg Hins Htr HC Hnn Hbuf0 H.
   set (t := i_tensor i0) in *. set (C := i_consumers i0) in *.
   unfold transform_graph in H.
   match type of H with bind ?x _ = _ => destruct x as [st3|] eqn:E end; cbn [bind] in H; [|discriminate].
@@ -204,7 +207,15 @@ Proof.
   destruct (inserted_tensor_readers k st i0 [] st1 [] 0 st1 post st3 g om cs Hg Htr Htr_rng Hfresh
               (py_index_of_nat _ _ _ Ho) Ecs Hcsr ES (Forall_nil _) (Forall_nil _) eq_refl Hids_post Hnn_post E)
     as (g3 & Hg3 & P3).
-  exists (ntens g), g3. split; [exact Hg3|]. split; [destruct SKtens as [T _]; exact T|].
+  (* the tensor t itself is as in the input model (nothing before names it) *)
+  destruct (run_all_untouched k t pre (init_pstate m0) st g0 Hids_pre Hnn Hg0 Ht0 E1) as (g_u & Hg_u & Tt & _).
+  rewrite Hg in Hg_u. inversion Hg_u; subst g_u.
+  assert (Hbuf : forall t0, tensor_at g t = Some t0 -> 0 <= t_buf t0) by (intros t0 Ht0'; apply Hbuf0; rewrite <- Tt; exact Ht0').
+  destruct (inserted_tensor_typed k st i0 [] st1 [] 0 st1 post st3 g Hg Htr Htr_rng Hbuf ES
+              (Forall_nil _) (Forall_nil _) eq_refl Hids_post Hnn_post E) as (g3' & tn & Hg3' & Ttn & Ttype).
+  rewrite Hg3 in Hg3'. inversion Hg3'; subst g3'.
+  exists (ntens g), g3, tn. split; [exact Hg3|]. split; [destruct SKtens as [T _]; exact T|].
+  split; [|split; [exact Ttn|exact Ttype]].
   rewrite P3. unfold moved_profile.
   (* all operators of the input graph are original *)
   assert (Horig0 : forall o, In o (sg_ops g0) -> is_original o = true).
